@@ -4,6 +4,9 @@ import (
 	"fmt"
 	"time"
 
+	"cqlsim/world"
+
+	"github.com/datastax/go-cassandra-native-protocol/message"
 	"github.com/datastax/go-cassandra-native-protocol/primitive"
 )
 
@@ -85,6 +88,25 @@ func c02(e *Env) {
 		if f.w.Stopped() {
 			return
 		}
+	}
+	if name == "late" && c.Choose("late-errors", 2) == 1 {
+		// a third of the requests are answered with an error that is simply passed on to the client
+		// (what the proxy does with the stream id of such an answer is exercised like any other)
+		f.scriptFn = func(tok string, v primitive.ProtocolVersion) []world.OutcomeSpec {
+			if c.Choose("late-error?", 3) != 2 {
+				return nil
+			}
+			errs := []world.Outcome{
+				world.ErrOutcome("invalid", &message.Invalid{ErrorMessage: "invalid query"}),
+				world.ErrOutcome("syntax", &message.SyntaxError{ErrorMessage: "syntax"}),
+				world.ErrOutcome("unauthorized", &message.Unauthorized{ErrorMessage: "unauthorized"}),
+				world.ErrOutcome("already_exists", &message.AlreadyExists{ErrorMessage: "exists", Keyspace: "ks", Table: "t"}),
+			}
+			o := errs[c.Choose("late-error-kind", len(errs))]
+			f.w.Script[tok] = []world.Outcome{o}
+			return []world.OutcomeSpec{{Outcome: o, Class: world.ClsFinal}}
+		}
+		e.Res.Stats["probe.c02.late.with_error_answers"]++
 	}
 	if name == "late" {
 		c02Late(e, f, int(cfg.MaxStreams))
